@@ -244,7 +244,8 @@ def c03_oracle(d):
         b = blobs[h["expect"][t]]
         ret = r.get("ret") or {}
         if c["op"] in ("readfile", "restore"):
-            if r["out"] != "ok" or ret.get("len") != b["len"] or ret.get("blob") != h["expect"][t]:
+            same = ret.get("blob") == h["expect"][t] or (b["len"] == 0 and ret.get("len") == 0)   # all empty contents are one content
+            if r["out"] != "ok" or ret.get("len") != b["len"] or not same:
                 # blob ids are resolved by content hash, so a wrong id means wrong bytes
                 fails.append(dict(kind="%s-differs-from-written" % c["op"], name=t, detail=[r["out"], r.get("err"), ret.get("len"), b["len"], b.get("kind")]))
         elif c["op"] == "stat":
@@ -265,7 +266,7 @@ def c03_oracle(d):
         n = f["name"] if f["name"].startswith("/") else "/" + f["name"]
         if n in h["expect"]:
             b = blobs[h["expect"][n]]
-            if f.get("err") or f.get("len") != b["len"] or f.get("blob") != h["expect"][n]:
+            if f.get("err") or f.get("len") != b["len"] or (f.get("blob") != h["expect"][n] and not (b["len"] == 0 and f.get("len") == 0)):
                 fails.append(dict(kind="fetch-differs-from-written", name=n, detail=[f.get("err"), f.get("len"), b["len"]]))
     return fails
 
